@@ -59,6 +59,7 @@ CHECKS = {
              'guess_format maps exactly the five extensions; nice_console_errors maps OSError/CommandException/other/'
              'KeyboardInterrupt to 2/code/3/1; every CommandException site has a non-zero code (AST scan). End-to-end '
              'equality of files with library results is a bounded native stand-in.',
+        text_extra='Also proved: whenever shapely accepts the GeoJSON value, geometry_argument returns that very geometry (no tidying, no rejection).',
         note=TRUST + 'Assumed: PY-RE (regex semantics; any consistent group decomposition), PY-FLOAT-GRAMMAR, PY-JSON, SH-SHAPE, '
              'SH-BOX; contracts/cli.py stubs for open_dataset, extract_dataframe, to_netcdf_with_fixes, the four writers '
              '(verified under C05/C15/C17 or IO); argparse wiring (main, add_arguments) only exercised by the bounded '
@@ -92,6 +93,7 @@ CHECKS = {
              'real accessor / State / bind code: first attachment is kept, second bind refused, copies independent; an AST '
              'scan shows State.bind_convention is the only store to .convention and Convention.bind its only caller; '
              'a taint scan finds no hash/id/clock/randomness/set iteration in detection code.',
+        text_extra='Also proved: a class already known through its entry point can be registered by hand and then wins ties (decision table row with a tie between two built-in conventions).',
         note=TRUST + 'Assumed: XR-ACCESSOR-CACHE (one cached accessor object per Dataset object, copies start empty), '
              'ENTRYPOINTS-DETERMINISTIC, PY-SORTED-STABLE. Histories are enumerated up to a bound (stated), the write-once '
              'invariant behind them is the unbounded argument.',
@@ -107,6 +109,7 @@ CHECKS = {
              'remove, convention class) changes at least one chunk; hash_int emits 4 bytes iff the value fits int32 else '
              'OverflowError; no set iteration / hash() / id() occurs. One obligation (attribute chunk is a function of '
              'attribute values) is refuted under the PY-MARSHAL contract and listed as a known finding.',
+        text_extra='Also proved: asking twice for the default key of one dataset object with an in-place edit of a geometry variable in between gives the key of the edited geometry (nothing is remembered between calls); attribute names with a leading underscore count like any other.',
         note=TRUST + 'Assumed: A-HASH (BLAKE2b collision free), PY-MARSHAL (injective; bytes depend on reference state; stable '
              'for the same objects within a process), NP-TOBYTES, A-INT32-SIZE, and that a differing chunk at a framed '
              'position makes the concatenated streams differ (the shape chunk has no ndim prefix: A-SHAPE-FRAMING).',
@@ -124,6 +127,7 @@ CHECKS = {
              'a kept face gets its rank; a node / edge is kept iff a kept face names it (both directions, with the witness of the '
              'value-set theory), numbered by its rank among the kept ones. The polygon contracts used are re-verified in this check. '
              'BOUNDED only: buffer_faces (Python sets of symbolic content) and the exhaustive <= 4x4 clause.',
+        text_extra='Also proved: buffer_faces (the given faces plus every face sharing a node, ascending, nothing else; also on meshes that store a face-face table) and UGrid.make_clip_mask with buffer 0; memory layout of input arrays is unknown (a store through ravel() of a non C-contiguous array is lost).',
         note=TRUST + 'Assumed: contracts of Convention.polygons / strtree (contracts/base.py, verified under C02/C06), '
              'SH-STRTREE-QUERY, NP-PAD, NP-NDITER-MULTI-INDEX, NP-FROMITER, NP-RAVEL-VIEW, NP-RESHAPE, NP-ANY-ALL with '
              'Skolem witnesses, NP-UNIQUE-VALUESET, contract of sensible_fill_value (C10). buffer_faces: bounded only.',
@@ -140,6 +144,9 @@ CHECKS = {
              'Convention.polygons drops exactly the invalid polygons with an InvalidPolygonWarning, keeps slots, makes the '
              'array read-only; mask[n] <=> polygon. The CF 2-D neighbour-average synthesis and the extent (bounds / '
              'geometry = bbox / union) are carried by the bounded native stand-in; the extent override is a known finding.',
+        text_extra='Also proved: CFGrid2D stored bounds are used only when they are on the grid of the coordinate (rejection of transposed / 3-corner / '
+             'corner-first bounds with a warning); CFGrid.bounds and UGrid.bounds contain every corner / node of every cell that has a polygon '
+             '(tightness over kept polygons does not hold: known finding D10).',
         note=TRUST + 'Assumed: A-REAL (midpoints), NP-STACK / BROADCAST / TRANSPOSE / RESHAPE / FLATNONZERO / FANCY-INDEX / MA-*, '
              'SH-POLYGONS-OUT, SH-IS-VALID (uninterpreted), SELECTION-THEORY, contract of Mesh2DTopology.sensible_fill_value; '
              'VALID-UGRID-MESH. shapely validity / union themselves: bounded only.',
@@ -182,6 +189,7 @@ CHECKS = {
              "'error' raises NonIntersectingPoints naming exactly the misses, 'drop' keeps exactly the hits in request "
              'order labelled with their original positions. extract_dataframe (pandas merge) is bounded natively. '
              "One obligation family ('drop' when every point misses) is a known finding.",
+        text_extra='The contract of get_index_for_point that the point scenarios rely on is re-verified in this check (C04 scenarios).',
         note=TRUST + 'Assumed: XR-ISEL-POINTWISE, XR-DROP-VARS, XR-ASSIGN-COORDS, XR-SQUEEZE, contract of get_index_for_point (C04); '
              'list length concrete (1..3). XR-MERGE-JOIN / PD-TO-XARRAY: bounded only.',
         technique='AST-generated verification conditions over the real source at Skolem positions (uninterpreted values), z3; bounded native byte-for-byte comparison',
@@ -211,6 +219,7 @@ CHECKS = {
              'its shape for a cell, with the values landing in the stored ten-character dbf fields; loss-free call-site preconditions: '
              'geojson precision >= 17, to_wkt rounding_precision == -1, text / binary write modes on the target path; .prj written next '
              'to a target and not invented without one. 4 conventions, all extents, any hole pattern.',
+        text_extra='Also proved: the numeric dbf field is wide enough for every linear index written; write_wkb passes no option that changes coordinates.',
         note=TRUST + 'Assumed: GEOJSON-OBJECTS, PYSHP-FIELD-TRUNCATE, SHAPELY-MULTIPOLYGON / TO-WKT / TO-WKB, PY-JSON; contract of '
              'polygons (C02/C06); SELECTION-THEORY; FOREACH (independent iterations). The byte-level round trip through the real '
              'libraries (read back with geojson / pyshp / shapely and compared coordinate-for-coordinate) is the bounded native stand-in.',
@@ -265,6 +274,7 @@ CHECKS = {
              'Meshes: masks given by arbitrary kept-sets (new index = rank); row k of every face / edge / node variable is the k-th kept '
              'row, bit-identical, in the original order; variables without mesh dimensions pass through; with or without edge '
              'dimension / edge_node table.',
+        text_extra='Also proved: applying a mask does not modify the mask (frame condition; a mask is applied to several datasets); every table of a mesh carries its own index base.',
         note=TRUST + 'Assumed: XR-WHERE, XR-ISEL, XR-NETCDF-ROUNDTRIP / XR-OPEN-MFDATASET (what decoding does to fill values and dtypes is NOT '
              'modelled), XR-MAYBE-PROMOTE, SELECTION-THEORY / SELECTION-EXTENSIONALITY, QUANT-SKOLEM, VALID-UGRID-MASK (C07), NP-MA. The real '
              'netCDF round trip, masks saved / reloaded and applied to a second dataset, and integer fill behaviour on disk are the bounded '
@@ -360,7 +370,7 @@ for p in props:
             'evidence_file': f'evidence/{pid}.json',
             'replay_cmd_template': '/venv/bin/python harness/replay.py {path}',
             'engine': 'pyvc',
-            'level_claimed': {'category': c['category'], 'text': c['text'], 'design_ref': c['design_ref']},
+            'level_claimed': {'category': c['category'], 'text': c['text'] + ((' ' + c['text_extra']) if c.get('text_extra') else ''), 'design_ref': c['design_ref']},
             'level_note': c['note'],
             'technique': c['technique'],
         })
